@@ -30,6 +30,8 @@ def facts():
                 ['OneOperandArithmeticOperatorToken', 'ExpressionToken'],
                 ['OneLeftOperandExpressionToken', 'OperatorToken', 'ExpressionToken'],
                 ['OneLeftOperandExpressionToken'],
+                ['BracketStartToken', 'ExpressionToken', 'BracketFinishToken', 'PercentOperatorToken', 'OperatorToken', 'ExpressionToken'],
+                ['BracketStartToken', 'ExpressionToken', 'BracketFinishToken', 'PercentOperatorToken'],
                 ['BracketStartToken', 'ExpressionToken', 'BracketFinishToken', 'OperatorToken', 'ExpressionToken'],
                 ['BracketStartToken', 'ExpressionToken', 'BracketFinishToken'],
                 ['OperandToken']]
